@@ -42,8 +42,22 @@ package baseoutput
 // abortConn (util.RunOnce over conn.Close) and the signal objects only touch their own state
 //@ fieldspec clientSession.abortConn(beforeRunning func())
 //@   modifies nothing
+// sigseq[s] = when signal s was raised, pubseq[p] = when atomic pointer p was last stored (ghost event clock evseq below)
+//@ ghost var sigseq [1099511627776]int
+//@ ghost var pubseq [1099511627776]int
 //@ extern func (s *channels.SignalAwaitable) Signal()
-//@   modifies nothing
+//@   modifies evseq, sigseq
+//@   ghostset evseq := evseq + 1
+//@   ghostset sigseq[ref(s)] := evseq + 1
+//@ extern func (x *atomic.Pointer) Store(val *[]base.LogChunk)
+//@   modifies evseq, pubseq
+//@   ghostset evseq := evseq + 1
+//@   ghostset pubseq[ref(x)] := evseq + 1
+//@ ghost var loadseq [1099511627776]int
+//@ extern func (x *atomic.Pointer) Load() *[]base.LogChunk
+//@   modifies evseq, loadseq
+//@   ghostset evseq := evseq + 1
+//@   ghostset loadseq[ref(x)] := evseq + 1
 // evseq: ghost clock of the hand-over events of a session end; lastwaitseq = when the end of the acknowledger was last
 // waited for, drainseq[ch] = when channel ch was last drained (util.CollectFromChannel, trusted)
 //@ ghost var evseq int
@@ -78,6 +92,7 @@ package baseoutput
 //@ func (session *clientSession) runAcknowledger()
 //@   requires sessok(session)
 //@   modifies everything
+//@   ensures[unacknowledged-chunks-published-before-the-end-is-signalled] old(evseq) < pubseq[ref(&session.unacked)] && pubseq[ref(&session.unacked)] < sigseq[ref(session.ackerEnded)]
 //@   loop 1: invariant[acknowledged-count-is-the-number-of-confirmations] mval[ref(session.metrics.acknowledgedCountTotal)] - old(mval[ref(session.metrics.acknowledgedCountTotal)]) == ncalls(session.onChunkAcked) - old(ncalls(session.onChunkAcked))
 //@   loop 1: invariant sessok(session)
 //@   loop 1: invariant noids(ref(session.conn)) ==> len(pendingChunksByID) == 0
@@ -105,6 +120,7 @@ package baseoutput
 //@   modifies everything
 //@   ensures result != nil
 //@   ensures[ack-queue-drained-after-the-acknowledger-has-ended] drainseq[ref(old(session.ackerChan))] > lastwaitseq && lastwaitseq > old(evseq)
+//@   ensures[unacknowledged-chunks-read-after-the-acknowledger-has-ended] loadseq[ref(&session.unacked)] > lastwaitseq
 
 //@ func (session *clientSession) resendLeftovers(leftovers chan base.LogChunk) (chan base.LogChunk, reconnectPolicy)
 //@   requires sessok(session) && leftovers != nil && session.lastChunk == nil && ref(leftovers) != ref(session.inputChannel) && ref(leftovers) != ref(session.ackerChan)
